@@ -134,7 +134,7 @@ impl Property for C10 {
         "C10"
     }
     fn rule(&self) -> String {
-        "box-bodied robots (catalogue / realistic geometry; link boxes of random thickness, 8- or 14-vertex variants) x joint vectors (two postures per scene) x optional tool and base x 0..3 environment boxes placed against a chosen link / the tool at a gap of \
+        "box-bodied robots (catalogue / realistic geometry; link boxes of random thickness, 8- or 14-vertex variants; 1 scene in 50 uses the bundled RX160 STL meshes for links and base) x joint vectors (two postures per scene) x optional tool and base x 0..3 environment boxes placed against a chosen link / the tool at a gap of \
          {-0.5, 0.3, 0.8, 1.25, 3, random} x the pair's safety distance (or free in space) x safety tables (touch-only, positive defaults in [0.005,0.3], per-pair overrides in either key order, NEVER_COLLIDES on random pairs incl. pairs naming J1, base and tool) \
          x modes {first, all, none} x collides / collision_details / near(alternative table) / RobotBody::collides x rayon pools of 1, 2, 4, 16 threads with repeats. Oracle D decides every relevant pair; pairs within the 1e-4 m guard band, grazing contacts and \
          containment without surface contact are undecided. Non-trivial: a scene/posture with >= 1 decided-colliding and >= 1 decided-free relevant pair."
@@ -156,7 +156,15 @@ impl Property for C10 {
         Ok(serde_json::json!([a, b]))
     }
     fn strategy(&self, _tier: Tier) -> BoxedStrategy<Case> {
-        scene_strategy(3)
+        // 1 scene in 50 uses the bundled RX160 STL meshes (1.7k..15k triangles per link): slower oracle, same decisions
+        prop_oneof![49 => scene_strategy(3), 1 => scene_strategy(2).prop_map(|mut s| {
+            s.rx160 = true;
+            s.robot = rx160_spec();
+            // moderate margins: the real links come close to each other by design
+            s.safety.to_robot_default = s.safety.to_robot_default.min(0.05);
+            s.safety.to_environment = s.safety.to_environment.min(0.1);
+            s
+        })]
             .prop_flat_map(|scene| {
                 let n_env = scene.env.len();
                 let (wt, wb) = (scene.tool.is_some(), scene.base.is_some());
@@ -177,6 +185,13 @@ impl Property for C10 {
         ctx.class(if c.scene.tool.is_some() { "tool:yes" } else { "tool:no" });
         ctx.class(if c.scene.base.is_some() { "base:yes" } else { "base:no" });
         ctx.class(&format!("env:{}", c.scene.env.len()));
+        if c.scene.rx160 {
+            if rx160_meshes().is_none() {
+                ctx.exclude("RX160 meshes could not be loaded from the repository");
+                return Ok(());
+            }
+            ctx.class("meshes:bundled RX160 STL");
+        }
         ctx.class(if c.scene.safety.to_environment == 0.0 && c.scene.safety.to_robot_default == 0.0 { "safety:touch-only defaults" } else { "safety:positive defaults" });
         if c.scene.safety.special.iter().any(|s| s.2 <= -1.0) {
             ctx.class("safety:has NEVER_COLLIDES pair");
